@@ -4,6 +4,7 @@ Do not edit.
 
 `integrate` (line 52): parameters ('integrand', 'theta', 'a'); cache key ('integrand', 'theta', 'a') (read and written 2x under the same tuple; `cached = uncached` is C10);
 input validation ['integrand in self._INTEGRAL_LOOKUP.keys()', 'a > 0']; dispatch `if self.use_lookup` -> self._analytical_integration else self._numerical_integration.
+First statement `theta, a = float(theta), float(a)`: the identity on the real numbers the arguments denote (it only fixes the Python type seen by the cache key, C10).
 `__init__`: {'pulse_parametrization': 'pulse.get_parametrization()', 'use_lookup': 'pulse.use_lookup', '_cache': 'dict()'}.
 pulse.py: {'ConstantPulse': {'parametrization': 'identity', 'use_lookup': True}, 'ConstantPulseNumerical': {'parametrization': 'identity', 'use_lookup': False}, 'GaussianPulse': {'parametrization': 'self._gaussian_parametrization', 'use_lookup': False}}; `identity(x)` returns `x`; `get_parametrization` returns the stored callable.
 `F` stands for `self.pulse_parametrization`.  `*_defined_*` is the conjunction of `denominator ≠ 0` over every division
@@ -23,12 +24,12 @@ def result_sin_sq (theta a : ℝ) : ℝ :=
   ((a * (((2 : ℝ) * theta) - (Real.sin ((2 : ℝ) * theta)))) / ((4 : ℝ) * theta))
 def result_defined_sin_sq (theta a : ℝ) : Prop :=
   ((4 : ℝ) * theta) ≠ 0
-/-- value returned by `_analytical_integration("sin(theta/a)**2", theta, a)` (line 88) -/
+/-- value returned by `_analytical_integration("sin(theta/a)**2", theta, a)` (line 92) -/
 def analytic_sin_sq (theta a : ℝ) : ℝ :=
   (if theta = (0 : ℝ) then (a * ((Real.sin ((0 : ℝ) / a)) ^ 2)) else ((a * (((2 : ℝ) * theta) - (Real.sin ((2 : ℝ) * theta)))) / ((4 : ℝ) * theta)))
 def analytic_defined_sin_sq (theta a : ℝ) : Prop :=
   (if theta = (0 : ℝ) then a ≠ 0 else ((4 : ℝ) * theta) ≠ 0)
-/-- the function `_numerical_integration("sin(theta/a)**2", theta, a)` (line 105) hands to `scipy.integrate.quad`, at `t` -/
+/-- the function `_numerical_integration("sin(theta/a)**2", theta, a)` (line 109) hands to `scipy.integrate.quad`, at `t` -/
 def numeric_integrand_sin_sq (F : ℝ → ℝ) (theta a t : ℝ) : ℝ :=
   ((Real.sin ((((F (t / a)) * theta) * a) / a)) ^ 2)
 def numeric_integrand_defined_sin_sq (F : ℝ → ℝ) (theta a t : ℝ) : Prop :=
@@ -51,12 +52,12 @@ def result_sin_half_pow4 (theta a : ℝ) : ℝ :=
   ((a * ((((6 : ℝ) * theta) - ((8 : ℝ) * (Real.sin theta))) + (Real.sin ((2 : ℝ) * theta)))) / ((16 : ℝ) * theta))
 def result_defined_sin_half_pow4 (theta a : ℝ) : Prop :=
   ((16 : ℝ) * theta) ≠ 0
-/-- value returned by `_analytical_integration("sin(theta/(2*a))**4", theta, a)` (line 88) -/
+/-- value returned by `_analytical_integration("sin(theta/(2*a))**4", theta, a)` (line 92) -/
 def analytic_sin_half_pow4 (theta a : ℝ) : ℝ :=
   (if theta = (0 : ℝ) then (a * ((Real.sin ((0 : ℝ) / ((2 : ℝ) * a))) ^ 4)) else ((a * ((((6 : ℝ) * theta) - ((8 : ℝ) * (Real.sin theta))) + (Real.sin ((2 : ℝ) * theta)))) / ((16 : ℝ) * theta)))
 def analytic_defined_sin_half_pow4 (theta a : ℝ) : Prop :=
   (if theta = (0 : ℝ) then ((2 : ℝ) * a) ≠ 0 else ((16 : ℝ) * theta) ≠ 0)
-/-- the function `_numerical_integration("sin(theta/(2*a))**4", theta, a)` (line 105) hands to `scipy.integrate.quad`, at `t` -/
+/-- the function `_numerical_integration("sin(theta/(2*a))**4", theta, a)` (line 109) hands to `scipy.integrate.quad`, at `t` -/
 def numeric_integrand_sin_half_pow4 (F : ℝ → ℝ) (theta a t : ℝ) : ℝ :=
   ((Real.sin ((((F (t / a)) * theta) * a) / ((2 : ℝ) * a))) ^ 4)
 def numeric_integrand_defined_sin_half_pow4 (F : ℝ → ℝ) (theta a t : ℝ) : Prop :=
@@ -79,12 +80,12 @@ def result_sin_mul_sin_half_sq (theta a : ℝ) : ℝ :=
   ((a * ((Real.sin (theta / (2 : ℝ))) ^ 4)) / theta)
 def result_defined_sin_mul_sin_half_sq (theta a : ℝ) : Prop :=
   (2 : ℝ) ≠ 0 ∧ theta ≠ 0
-/-- value returned by `_analytical_integration("sin(theta/a)*sin(theta/(2*a))**2", theta, a)` (line 88) -/
+/-- value returned by `_analytical_integration("sin(theta/a)*sin(theta/(2*a))**2", theta, a)` (line 92) -/
 def analytic_sin_mul_sin_half_sq (theta a : ℝ) : ℝ :=
   (if theta = (0 : ℝ) then (a * ((Real.sin ((0 : ℝ) / a)) * ((Real.sin ((0 : ℝ) / ((2 : ℝ) * a))) ^ 2))) else ((a * ((Real.sin (theta / (2 : ℝ))) ^ 4)) / theta))
 def analytic_defined_sin_mul_sin_half_sq (theta a : ℝ) : Prop :=
   (if theta = (0 : ℝ) then a ≠ 0 ∧ ((2 : ℝ) * a) ≠ 0 else (2 : ℝ) ≠ 0 ∧ theta ≠ 0)
-/-- the function `_numerical_integration("sin(theta/a)*sin(theta/(2*a))**2", theta, a)` (line 105) hands to `scipy.integrate.quad`, at `t` -/
+/-- the function `_numerical_integration("sin(theta/a)*sin(theta/(2*a))**2", theta, a)` (line 109) hands to `scipy.integrate.quad`, at `t` -/
 def numeric_integrand_sin_mul_sin_half_sq (F : ℝ → ℝ) (theta a t : ℝ) : ℝ :=
   ((Real.sin ((((F (t / a)) * theta) * a) / a)) * ((Real.sin ((((F (t / a)) * theta) * a) / ((2 : ℝ) * a))) ^ 2))
 def numeric_integrand_defined_sin_mul_sin_half_sq (F : ℝ → ℝ) (theta a t : ℝ) : Prop :=
@@ -107,12 +108,12 @@ def result_sin_half_sq (theta a : ℝ) : ℝ :=
   ((a * (theta - (Real.sin theta))) / ((2 : ℝ) * theta))
 def result_defined_sin_half_sq (theta a : ℝ) : Prop :=
   ((2 : ℝ) * theta) ≠ 0
-/-- value returned by `_analytical_integration("sin(theta/(2*a))**2", theta, a)` (line 88) -/
+/-- value returned by `_analytical_integration("sin(theta/(2*a))**2", theta, a)` (line 92) -/
 def analytic_sin_half_sq (theta a : ℝ) : ℝ :=
   (if theta = (0 : ℝ) then (a * ((Real.sin ((0 : ℝ) / ((2 : ℝ) * a))) ^ 2)) else ((a * (theta - (Real.sin theta))) / ((2 : ℝ) * theta)))
 def analytic_defined_sin_half_sq (theta a : ℝ) : Prop :=
   (if theta = (0 : ℝ) then ((2 : ℝ) * a) ≠ 0 else ((2 : ℝ) * theta) ≠ 0)
-/-- the function `_numerical_integration("sin(theta/(2*a))**2", theta, a)` (line 105) hands to `scipy.integrate.quad`, at `t` -/
+/-- the function `_numerical_integration("sin(theta/(2*a))**2", theta, a)` (line 109) hands to `scipy.integrate.quad`, at `t` -/
 def numeric_integrand_sin_half_sq (F : ℝ → ℝ) (theta a t : ℝ) : ℝ :=
   ((Real.sin ((((F (t / a)) * theta) * a) / ((2 : ℝ) * a))) ^ 2)
 def numeric_integrand_defined_sin_half_sq (F : ℝ → ℝ) (theta a t : ℝ) : Prop :=
@@ -135,12 +136,12 @@ def result_cos_sq (theta a : ℝ) : ℝ :=
   ((a * (((2 : ℝ) * theta) + (Real.sin ((2 : ℝ) * theta)))) / ((4 : ℝ) * theta))
 def result_defined_cos_sq (theta a : ℝ) : Prop :=
   ((4 : ℝ) * theta) ≠ 0
-/-- value returned by `_analytical_integration("cos(theta/a)**2", theta, a)` (line 88) -/
+/-- value returned by `_analytical_integration("cos(theta/a)**2", theta, a)` (line 92) -/
 def analytic_cos_sq (theta a : ℝ) : ℝ :=
   (if theta = (0 : ℝ) then (a * ((Real.cos ((0 : ℝ) / a)) ^ 2)) else ((a * (((2 : ℝ) * theta) + (Real.sin ((2 : ℝ) * theta)))) / ((4 : ℝ) * theta)))
 def analytic_defined_cos_sq (theta a : ℝ) : Prop :=
   (if theta = (0 : ℝ) then a ≠ 0 else ((4 : ℝ) * theta) ≠ 0)
-/-- the function `_numerical_integration("cos(theta/a)**2", theta, a)` (line 105) hands to `scipy.integrate.quad`, at `t` -/
+/-- the function `_numerical_integration("cos(theta/a)**2", theta, a)` (line 109) hands to `scipy.integrate.quad`, at `t` -/
 def numeric_integrand_cos_sq (F : ℝ → ℝ) (theta a t : ℝ) : ℝ :=
   ((Real.cos ((((F (t / a)) * theta) * a) / a)) ^ 2)
 def numeric_integrand_defined_cos_sq (F : ℝ → ℝ) (theta a t : ℝ) : Prop :=
@@ -163,12 +164,12 @@ def result_sin_mul_cos (theta a : ℝ) : ℝ :=
   ((a * ((Real.sin theta) ^ 2)) / ((2 : ℝ) * theta))
 def result_defined_sin_mul_cos (theta a : ℝ) : Prop :=
   ((2 : ℝ) * theta) ≠ 0
-/-- value returned by `_analytical_integration("sin(theta/a)*cos(theta/a)", theta, a)` (line 88) -/
+/-- value returned by `_analytical_integration("sin(theta/a)*cos(theta/a)", theta, a)` (line 92) -/
 def analytic_sin_mul_cos (theta a : ℝ) : ℝ :=
   (if theta = (0 : ℝ) then (a * ((Real.sin ((0 : ℝ) / a)) * (Real.cos ((0 : ℝ) / a)))) else ((a * ((Real.sin theta) ^ 2)) / ((2 : ℝ) * theta)))
 def analytic_defined_sin_mul_cos (theta a : ℝ) : Prop :=
   (if theta = (0 : ℝ) then a ≠ 0 ∧ a ≠ 0 else ((2 : ℝ) * theta) ≠ 0)
-/-- the function `_numerical_integration("sin(theta/a)*cos(theta/a)", theta, a)` (line 105) hands to `scipy.integrate.quad`, at `t` -/
+/-- the function `_numerical_integration("sin(theta/a)*cos(theta/a)", theta, a)` (line 109) hands to `scipy.integrate.quad`, at `t` -/
 def numeric_integrand_sin_mul_cos (F : ℝ → ℝ) (theta a t : ℝ) : ℝ :=
   ((Real.sin ((((F (t / a)) * theta) * a) / a)) * (Real.cos ((((F (t / a)) * theta) * a) / a)))
 def numeric_integrand_defined_sin_mul_cos (F : ℝ → ℝ) (theta a t : ℝ) : Prop :=
@@ -191,12 +192,12 @@ def result_sin (theta a : ℝ) : ℝ :=
   ((a * ((1 : ℝ) - (Real.cos theta))) / theta)
 def result_defined_sin (theta a : ℝ) : Prop :=
   theta ≠ 0
-/-- value returned by `_analytical_integration("sin(theta/a)", theta, a)` (line 88) -/
+/-- value returned by `_analytical_integration("sin(theta/a)", theta, a)` (line 92) -/
 def analytic_sin (theta a : ℝ) : ℝ :=
   (if theta = (0 : ℝ) then (a * (Real.sin ((0 : ℝ) / a))) else ((a * ((1 : ℝ) - (Real.cos theta))) / theta))
 def analytic_defined_sin (theta a : ℝ) : Prop :=
   (if theta = (0 : ℝ) then a ≠ 0 else theta ≠ 0)
-/-- the function `_numerical_integration("sin(theta/a)", theta, a)` (line 105) hands to `scipy.integrate.quad`, at `t` -/
+/-- the function `_numerical_integration("sin(theta/a)", theta, a)` (line 109) hands to `scipy.integrate.quad`, at `t` -/
 def numeric_integrand_sin (F : ℝ → ℝ) (theta a t : ℝ) : ℝ :=
   (Real.sin ((((F (t / a)) * theta) * a) / a))
 def numeric_integrand_defined_sin (F : ℝ → ℝ) (theta a t : ℝ) : Prop :=
@@ -219,12 +220,12 @@ def result_cos_half_sq (theta a : ℝ) : ℝ :=
   ((a * (theta + (Real.sin theta))) / ((2 : ℝ) * theta))
 def result_defined_cos_half_sq (theta a : ℝ) : Prop :=
   ((2 : ℝ) * theta) ≠ 0
-/-- value returned by `_analytical_integration("cos(theta/(2*a))**2", theta, a)` (line 88) -/
+/-- value returned by `_analytical_integration("cos(theta/(2*a))**2", theta, a)` (line 92) -/
 def analytic_cos_half_sq (theta a : ℝ) : ℝ :=
   (if theta = (0 : ℝ) then (a * ((Real.cos ((0 : ℝ) / ((2 : ℝ) * a))) ^ 2)) else ((a * (theta + (Real.sin theta))) / ((2 : ℝ) * theta)))
 def analytic_defined_cos_half_sq (theta a : ℝ) : Prop :=
   (if theta = (0 : ℝ) then ((2 : ℝ) * a) ≠ 0 else ((2 : ℝ) * theta) ≠ 0)
-/-- the function `_numerical_integration("cos(theta/(2*a))**2", theta, a)` (line 105) hands to `scipy.integrate.quad`, at `t` -/
+/-- the function `_numerical_integration("cos(theta/(2*a))**2", theta, a)` (line 109) hands to `scipy.integrate.quad`, at `t` -/
 def numeric_integrand_cos_half_sq (F : ℝ → ℝ) (theta a t : ℝ) : ℝ :=
   ((Real.cos ((((F (t / a)) * theta) * a) / ((2 : ℝ) * a))) ^ 2)
 def numeric_integrand_defined_cos_half_sq (F : ℝ → ℝ) (theta a t : ℝ) : Prop :=
